@@ -4,6 +4,18 @@ NOTES = ("Every check re-checks the Coq theorems of coq/Props/<id>.v (full .vo b
          "See DESIGN.md for the trusted base and known_findings.json for recorded defects.")
 NOT_APPLICABLE = {}
 CLAIMED = {
+ "C08": {
+  "text": "Partial. Proved for the hand-written indentation wrapper (through the NextToken protocol theorem of C20): the "
+          "token stream handed to the parser depends only on the order type of the indentation widths (any strictly "
+          "monotone re-labelling: 1-8 blanks or tabs per level) and blank / whitespace-only / comment-only lines at any "
+          "indentation are transparent. Not proved: that the generated lexer/parser treat CRLF, redundant parentheses, "
+          "operator spellings, blanks inside commands and reader splits alike - every generated program is rendered "
+          "under 11 layouts and all parsed dialogues and traces are compared. Known finding D10.",
+  "design_ref": "DESIGN.md section 5, C08",
+  "note": "Axiom-free theorems (closed under the global context). The staged parse(print(l, d)) = d round trip over a "
+          "transcribed grammar was not built; the implementation's own parser is used as the oracle for it.",
+  "technique": "Coq proof on the indentation wrapper model + metamorphic correspondence check across layouts",
+ },
  "C16": {
   "text": "Theorems over a universe of Go types described by what reflect reports (kind, named, implements error, channel "
           "direction/element): for every signature and argument list, the arguments the input converter produces satisfy "
